@@ -594,3 +594,57 @@ def describe_ctx(ctx):
         else:
             out.append(lab)
     return ' / '.join(out)
+
+
+def absorbing_child_loop(fn, call):
+    """`for PAT in SRC { if let Some(x) = <call> { V.push(x) } }` (or an unconditional push of the call's value): the loop form of
+    `SRC.filter_map(|n| call(n)).collect()`. Returns dict(loop, vec_hid, conditional) or None.
+    Requirements: the loop body has no break/continue/return; the only effect on V in the loop is that one push; the pushed
+    value is what the `if let Some(..)` bound (or the call itself); SRC has no narrowing/reordering adaptor."""
+    lp = next((a for a in ancestors(fn, call) if a.get('k') == 'For'), None)
+    if lp is None:
+        return None
+    if any(x.get('k') in ('Break', 'Continue', 'Ret') for x in walk(lp['body'], enter_closures=False)):
+        return None
+    for m in walk(lp['iter']):
+        if m.get('k') == 'MCall' and m.get('m') in ('rev', 'skip', 'take', 'filter', 'step_by', 'skip_while', 'take_while', 'chain', 'zip', 'sorted', 'sorted_by', 'sorted_by_key', 'dedup', 'unique'):
+            return None
+    pushes = [c for c in calls_in(lp['body']) if c.get('m') == 'push']
+    if len(pushes) != 1:
+        return None
+    p = pushes[0]
+    vec = root_local(p['recv'])
+    if vec is None:
+        return None
+    par = parents(fn)
+    cond = None
+    for a in ancestors(fn, p):
+        if a is lp:
+            break
+        if a.get('k') == 'If':
+            if cond is not None or a['c'].get('k') != 'LetCond' or strip_refs(a['c']['e']) is not call and not any(x is call for x in walk(a['c']['e'])):
+                return None
+            if not pp_is_some(a['c']['pat']) or 'els' in a and list(walk(a['els'])) and any(x.get('k') in ('Call', 'MCall') for x in walk(a['els'])):
+                return None
+            cond = a
+        elif a.get('k') in ('Match', 'Loop', 'For', 'Closure'):
+            return None
+    pushed = root_local(p['args'][0])
+    if cond is not None:
+        b = pat_bindings(cond['c']['pat'])
+        if not b or pushed is None or pushed.get('hid') != b[0]['hid'] or strip_refs(p['args'][0]).get('k') != 'Path':
+            return None
+    else:
+        if not any(x is call for x in walk(p['args'][0])):
+            return None
+    # V is not touched otherwise inside the loop
+    for c in calls_in(lp['body']):
+        if c is not p and c.get('k') == 'MCall' and (root_local(c['recv']) or {}).get('hid') == vec.get('hid'):
+            return None
+    return {'loop': lp, 'vec_hid': vec.get('hid'), 'conditional': cond is not None, 'push': p}
+
+
+def pp_is_some(pat):
+    while pat.get('k') in ('PRef', 'PDeref'):
+        pat = pat['p']
+    return pat.get('k') in ('PTS', 'PStruct') and (pat.get('def') or '').endswith('Option::Some')
